@@ -135,6 +135,8 @@ impl Aml for Path {
                 sink.byte(DUALNAMEPREFIX);
             }
             n => {
+                // SegCount is a single byte
+                assert!(n <= 255);
                 sink.byte(MULTINAMEPREFIX);
                 sink.byte(n as u8);
             }
@@ -264,6 +266,8 @@ pub struct Package<'a> {
 
 impl Aml for Package<'_> {
     fn to_aml_bytes(&self, sink: &mut dyn AmlSink) {
+        // NumElements is a single byte
+        assert!(self.children.len() <= 255);
         let mut bytes = vec![self.children.len() as u8];
         for child in &self.children {
             child.to_aml_bytes(&mut bytes);
@@ -292,6 +296,8 @@ pub struct PackageBuilder {
 
 impl Aml for PackageBuilder {
     fn to_aml_bytes(&self, sink: &mut dyn AmlSink) {
+        // NumElements is a single byte
+        assert!(self.elements <= 255);
         let pkg_length = create_pkg_length(self.data.len() + 1, true);
 
         sink.byte(PACKAGEOP);
@@ -388,6 +394,8 @@ fn create_pkg_length(len: usize, include_self: bool) -> Vec<u8> {
     };
 
     let length = len + if include_self { length_length } else { 0 };
+    // A PkgLength carries 28 bits
+    assert!(length < (1 << 28));
 
     match length_length {
         1 => result.push(length as u8),
@@ -655,7 +663,11 @@ impl Aml for AddressSpace<u16> {
         sink.word(self.min); /* Min */
         sink.word(self.max); /* Max */
         sink.word(self.translation.unwrap_or(0));
-        let len = self.max - self.min + 1;
+        let len = self
+            .max
+            .checked_sub(self.min)
+            .and_then(|d| d.checked_add(1))
+            .expect("address range size must fit the descriptor's width");
         sink.word(len); /* Length */
     }
 }
@@ -672,7 +684,11 @@ impl Aml for AddressSpace<u32> {
         sink.dword(self.min); /* Min */
         sink.dword(self.max); /* Max */
         sink.dword(self.translation.unwrap_or(0)); /* Translation */
-        let len = self.max - self.min + 1;
+        let len = self
+            .max
+            .checked_sub(self.min)
+            .and_then(|d| d.checked_add(1))
+            .expect("address range size must fit the descriptor's width");
         sink.dword(len); /* Length */
     }
 }
@@ -689,7 +705,11 @@ impl Aml for AddressSpace<u64> {
         sink.qword(self.min); /* Min */
         sink.qword(self.max); /* Max */
         sink.qword(self.translation.unwrap_or(0)); /* Translation */
-        let len = self.max - self.min + 1;
+        let len = self
+            .max
+            .checked_sub(self.min)
+            .and_then(|d| d.checked_add(1))
+            .expect("address range size must fit the descriptor's width");
         sink.qword(len); /* Length */
     }
 }
@@ -888,6 +908,8 @@ impl Aml for Method<'_> {
     fn to_aml_bytes(&self, sink: &mut dyn AmlSink) {
         let mut bytes = Vec::new();
         self.path.to_aml_bytes(&mut bytes);
+        // ArgCount is a 3-bit field
+        assert!(self.args <= 7);
         let flags: u8 = (self.args & 0x7) | ((self.serialized as u8) << 3);
         bytes.push(flags);
         for child in &self.children {
